@@ -29,6 +29,8 @@ func init() {
 		Assumptions: []string{"runtime index panics other than on split-field vectors are out of scope", "a converter re-panics exactly non-error and runtime.Error values (checked structurally)"},
 		Run: func(c *Ctx) {
 			c.guard("guardidx", func() { ruleGuardIdx(c, "guardidx", "io/featio/bed", "io/featio/gff"); c.floor("guardidx", 50) })
+			c.guard("lencheck", func() { ruleLenCheck(c, "lencheck"); c.floor("lencheck", 1) })
+			c.guard("lineio/eofhang", func() { ruleEOFPaths(c, "lineio/eofhang", "", "io/featio/bed", "io/featio/gff"); c.floor("lineio/eofhang", 3) })
 			c.guard("panicval", func() {
 				rulePanicVal(c, "panicval", "io/featio/bed", "io/featio/gff")
 				c.floor("panicval/root", 6)
@@ -49,6 +51,8 @@ func init() {
 			c.guard("lineio/normalise", func() { ruleNormalise(c, "lineio/normalise", feat...); c.floor("lineio/normalise", 3) })
 			c.guard("lineio/fragments", func() { ruleFragments(c, "lineio/fragments", seqs...); c.floor("lineio/fragments", 8) })
 			c.guard("lineio/eofdata", func() { ruleDataOnEOF(c, "lineio/eofdata", seqs...) })
+			c.guard("bufalias", func() { ruleBufAlias(c, "bufalias", append(append([]string{}, feat...), seqs...)...); c.floor("bufalias", 4) })
+			c.guard("lineio/eofclean", func() { ruleEOFPaths(c, "", "lineio/eofclean", feat...); c.floor("lineio/eofclean", 3) })
 		},
 	})
 	register(&propDef{
@@ -62,6 +66,7 @@ func init() {
 			c.guard("lineio/fragments", func() { ruleFragments(c, "lineio/fragments", seqs...); c.floor("lineio/fragments", 8) })
 			c.guard("tables/markers", func() { ruleMarkers(c); c.floor("tables/markers", 5) })
 			c.guard("tables/quality", func() { ruleQuality(c) })
+			c.guard("prefixstrip", func() { rulePrefixStrip(c, "prefixstrip", seqs...); c.floor("prefixstrip", 2) })
 		},
 	})
 	register(&propDef{
@@ -71,6 +76,7 @@ func init() {
 		Assumptions: []string{"feat.OneToZero/ZeroToOne implement the 1-based/0-based pair (their bodies are value-level)", "fmt.Fprint* report the bytes they wrote"},
 		Run: func(c *Ctx) {
 			c.guard("convpair", func() { ruleConvPair(c, "convpair"); c.floor("convpair", 12) })
+			c.guard("bufalias", func() { ruleBufAlias(c, "bufalias", "io/featio/bed", "io/featio/gff"); c.floor("bufalias", 2) })
 			c.guard("bytecount", func() { ruleByteCount(c, "bytecount", "io/featio/bed", "io/featio/gff"); c.floor("bytecount", 28) })
 		},
 	})
@@ -95,7 +101,7 @@ func init() {
 			c.guard("loopdep", func() {
 				ruleLoopDep(c, "loopdep", "seq/multi", "(*Multi).RevComp", "SetOffset")
 				ruleLoopDep(c, "loopdep", "seq/multi", "(*Multi).Reverse", "SetOffset")
-				c.floor("loopdep", 2)
+				c.floor("loopdep", 4)
 			})
 		},
 	})
@@ -149,6 +155,14 @@ func init() {
 				ruleLIVGuard(c, "livguard", fns)
 				c.floor("livguard", 60)
 			})
+			c.guard("stride", func() {
+				var fns []*ssa.Function
+				for _, a := range aligners {
+					fns = append(fns, c.fn("align", a+".alignLetters"), c.fn("align", a+".alignQLetters"))
+				}
+				ruleStride(c, "stride", fns)
+				c.floor("stride", 100)
+			})
 		},
 	})
 	register(&propDef{
@@ -162,6 +176,7 @@ func init() {
 				ruleLIVGuard(c, "livguard", srcFuncs(c.SPkgs[p.PkgPath]))
 				c.floor("livguard", 4)
 			})
+			c.guard("maskguard", func() { ruleMaskGuard(c, "maskguard"); c.floor("maskguard", 2) })
 		},
 	})
 	register(&propDef{
